@@ -1,7 +1,7 @@
 """C06 — JSON codec (see jsonfam.py and DESIGN.md §4.6-4.8)."""
 from . import jsonfam
 
-THEOREMS = ["Goag.JsonM.encode_members_wellformed", "Goag.JsonM.writeItems_inv", "Goag.JsonM.old_writer_missing_comma", "Goag.JsonM.old_writer_leading_comma", "Goag.JsonM.fields_roundtrip", "Goag.JsonM.rt_roundtrip", "Goag.JsonM.rt_all", "Goag.JsonM.list_roundtrip", "Goag.JsonM.addl_roundtrip", "Goag.JsonM.toJMembers_names_declared"]
+THEOREMS = ["Goag.JsonM.encode_members_wellformed", "Goag.JsonM.writeItems_inv", "Goag.JsonM.old_writer_missing_comma", "Goag.JsonM.old_writer_leading_comma", "Goag.JsonM.fields_roundtrip", "Goag.JsonM.rt_roundtrip", "Goag.JsonM.rt_all", "Goag.JsonM.list_roundtrip", "Goag.JsonM.addl_roundtrip", "Goag.JsonM.toJMembers_names_declared", "Goag.JsonM.oneOf_disc_roundtrip", "Goag.JsonM.oneOf_probe_roundtrip", "Goag.JsonM.oneOf_probe_roundtrip_rt"]
 RULE = "specs = random component sets: objects (1-4 properties of primitive / nullable primitive / $ref / inline array / inline object / untyped kind, required or optional, additionalProperties absent / true / schema), array components, allOf in every ref/inline member order, oneOf with discriminator (+mapping) and without; values = reflect-built from the schema (every optional subset, nulls where allowed, empty and nil collections, strings needing escapes, extreme numbers, zoned times, additional keys with quotes / backslashes / newlines / non-ASCII); documents = generated from the schema independently of goag (optional subsets, null where allowed, extra keys) + single-fault mutants (drop a required key, swap a value kind); distinct by (package, type, canonical JSON)"
 EXPLANATION = "theorem rt_roundtrip: for leaf / array / object / map / allOf-of-plain-objects schemas of any depth, decode (toJ v) = v for every value whose leaves the library round-trips (the run reports how many of its values lie inside that fragment: inside_proved_fragment); encode: the bytes of the generated MarshalJSON must be valid JSON without duplicate keys and decode back (generated UnmarshalJSON) to an equal value; canonical JSON and canonical value dump are compared with the Lean model toJ / dumpVal"
 ASSUMPTIONS = ["schemas non-recursive; property names free of quote / backslash / control characters", "oneOf without discriminator: every alternative has a required property of its own (unambiguous probing)",
@@ -10,4 +10,4 @@ ASSUMPTIONS = ["schemas non-recursive; property names free of quote / backslash 
 
 
 def check(ctx):
-    return jsonfam.check(ctx, "C06", ["GoagModel.Props.C06", "GoagModel.Props.C06b"], THEOREMS, RULE, EXPLANATION, ASSUMPTIONS, level="translation_validation")
+    return jsonfam.check(ctx, "C06", ["GoagModel.Props.C06", "GoagModel.Props.C06b", "GoagModel.Props.C06c"], THEOREMS, RULE, EXPLANATION, ASSUMPTIONS, level="translation_validation")
